@@ -9,6 +9,7 @@ let get m k = try List.assoc k m with Not_found -> "-"
 let split_c s = if s = "-" || s = "" then [] else String.split_on_char ',' s
 let oct s = int_of_string ("0o" ^ s)
 let file_of_spec s : file option =
+  let s = match String.index_opt s '@' with Some i -> String.sub s 0 i | None -> s in   (* @uid-gid: owners are harness-only *)
   if s = "x" then None else
   match s.[0] with
   | 'd' -> Some Dir
@@ -43,7 +44,7 @@ let starts p s = String.length s >= String.length p && String.sub s 0 (String.le
 let tarball_of ?(extractor_rejected=false) m =
   let tam = get m "tam" in
   let arts = List.map (fun it -> match String.split_on_char ':' it with
-      | [p; c; md; rc] ->
+      | p :: c :: md :: rc :: _ ->
         { a_path = n_of_int (int_of_string p); a_content = n_of_int (int_of_string c);
           a_mode = (match md with "e" -> MEmpty | "b" -> MBad | s -> MOk (n_of_int (oct s)));
           a_vpp = (rc = "v" || rc = "b") }
@@ -58,7 +59,7 @@ let tarball_of ?(extractor_rejected=false) m =
                    && not (extractor_rejected && (tam = "dupl" || tam = "dups"));
     t_digest_ok = not (starts "dig" tam || tam = "swapm" || tam = "nosrc" || tam = "duplr" || tam = "dupsr"
                        || (tam = "dupman" && (match arts with a0 :: a1 :: _ -> a0.a_content <> a1.a_content | _ -> false)));
-    t_hook_ok = (get m "hook" = "n");
+    t_hook_ok = (get m "hook" = "n" || get m "hook" = "p");   (* p = a failing POST hook: warning only *)
     t_arts = arts }
 let opts_of m = {
   o_expect = (match get m "exp" with "-" -> None | s -> Some (n_of_int (int_of_string s)));
@@ -85,7 +86,9 @@ let observe ?(ver="-") ?(rm="-") w res mon =
   let ax = String.concat "," (List.init npaths (fun p -> spec_of_file (w.fs (n_of_int (100 + p))))) in
   let rv = String.concat "," (List.init npaths (fun p ->
       match resolve w.fs (n_of_int p) (nat_of_int 16) with Some c -> string_of_int (int_of_n c) | None -> "x")) in
-  Printf.sprintf "%s j=%s cur=%d sn=%s fs=%s ax=%s rv=%s mon=%s ver=%s rm=%s" res ph (int_of_n w.cur) sns fsd ax rv mon ver rm
+  (* own = the harness's ownership monitor: it applies exactly when the tree monitor does; the model has no owners *)
+  let own = if mon = "-" then "-" else if mon = "na" then "na" else "ok" in
+  Printf.sprintf "%s j=%s cur=%d sn=%s fs=%s ax=%s rv=%s mon=%s ver=%s rm=%s own=%s" res ph (int_of_n w.cur) sns fsd ax rv mon ver rm own
 let rec split_ops toks cur acc = match toks with
   | [] -> List.rev (if cur = [] then acc else List.rev cur :: acc)
   | ";" :: r -> split_ops r [] (if cur = [] then acc else List.rev cur :: acc)
